@@ -245,6 +245,13 @@ def run(tier, replay):
             raise vlib.Inconclusive("group-by-tuple harness failed\n" + out[-2000:])
         for b in json.load(open(go_))["bad"] or []:
             V.violation("group by several fields: the rows differ from the central evaluation (a missing field is an empty position of the key)", b)
+        # csv cells and key=value pairs with the same text (the empty text included) are the same field values
+        eo = os.path.join(wd, "csvempty.json")
+        rc, out = vlib.go_test(wd, "./internal/mapr/server", OV, "TestC05CsvEmptyCells", env={"VERIF_OUT": eo}, timeout=300)
+        if rc != 0 or not os.path.exists(eo):
+            raise vlib.Inconclusive("csv empty-cell harness failed\n" + out[-2000:])
+        for b in json.load(open(eo))["bad"] or []:
+            V.violation("the same rows as csv (with empty cells) and as key=value pairs give different results", b)
         # magnitudes: a partial count/sum beyond 10^6 inside one serialisation interval
         mo = os.path.join(wd, "mag.json")
         nbig = 1000005 if tier == "quick" else 2500003
